@@ -73,6 +73,37 @@ func genAttrDecoders(g *gen) {
 				g.emit(fn, term.N(uint64(f)), term.Hex(v))
 			}
 		}
+		// values made of repeated units (the same community / AS / cluster id several times, next to each other and
+		// apart): a decoder must deliver every element as often as it is on the wire
+		for _, unit := range []int{2, 4, 8, 12} {
+			u0, u1 := g.bytes(unit), make([]byte, unit)
+			for n := 1; n <= 6; n++ {
+				for pat := 0; pat < 1<<n; pat++ {
+					var v []byte
+					for k := 0; k < n; k++ {
+						if pat>>k&1 == 0 {
+							v = append(v, u0...)
+						} else {
+							v = append(v, u1...)
+						}
+					}
+					if a.code == 2 { // one AS_SEQUENCE segment over the units, when they are whole AS numbers
+						if unit%4 != 0 || len(v)/4 > 255 {
+							continue
+						}
+						v = append([]byte{2, uint8(len(v) / 4)}, v...)
+					}
+					g.emit(fn, term.N(uint64(pick[uint8](g, 0x40, 0x80, 0xc0))), term.Hex(v))
+				}
+			}
+			// many copies, extended length
+			var v []byte
+			for k := 0; k < 100; k++ {
+				v = append(v, u0...)
+			}
+			g.emit(fn, term.N(0xd0), term.Hex(v))
+			g.emit(fn, term.N(0x50), term.Hex(v))
+		}
 		// grammar-generated good values with the right and random flags, and mutations of them
 		for i := 0; i < g.scale(1500, 30000); i++ {
 			v := a.good(g)
@@ -416,6 +447,53 @@ func genUpdateBodies(scripted bool) func(g *gen) {
 	}
 }
 
+// genUpdSeq: histories through one long-lived UpdateDecoder — a message that makes Decode stop early (a repeated
+// MP_REACH / MP_UNREACH, a callback answering with a NOTIFICATION, a mutated or truncated body) followed by ordinary
+// messages with the mandatory attributes
+func genUpdSeq(g *gen) {
+	empty := term.L()
+	mpTwice := func() []byte {
+		code := pick[uint8](g, 14, 15)
+		var attrs []byte
+		for _, c := range []uint8{1, code, 2, code, 3} {
+			l := g.r.Intn(6)
+			if c == code && g.r.Intn(3) == 0 {
+				l = 0
+			}
+			attrs = append(attrs, g.attrBytes(c, pick[uint8](g, 0x40, 0x80, 0x90), g.bytes(l))...)
+		}
+		if g.r.Intn(3) == 0 {
+			// the second one cut short
+			attrs = attrs[:len(attrs)-1-g.r.Intn(3)]
+		}
+		b := []byte{0, 0, uint8(len(attrs) >> 8), uint8(len(attrs))}
+		b = append(b, attrs...)
+		return append(b, g.prefixField(false, false, g.r.Intn(2))...)
+	}
+	for i := 0; i < g.scale(2500, 40000); i++ {
+		var ps []T
+		switch g.r.Intn(4) {
+		case 0:
+			ps = append(ps, term.App("P", term.Hex(mpTwice()), empty))
+		case 1:
+			ps = append(ps, term.App("P", term.Hex(g.updateBody()), g.script(3)))
+		case 2:
+			ps = append(ps, term.App("P", term.Hex(g.mutate(g.updateBody())), empty))
+		default:
+			b := g.updateBody()
+			ps = append(ps, term.App("P", term.Hex(b[:g.r.Intn(len(b)+1)]), empty))
+		}
+		for k := 1 + g.r.Intn(3); k > 0; k-- {
+			sc := empty
+			if g.r.Intn(5) == 0 {
+				sc = g.script(2)
+			}
+			ps = append(ps, term.App("P", term.Hex(g.updateBody()), sc))
+		}
+		g.emit("updseq", term.L(ps...))
+	}
+}
+
 // genBitmap: every single code against all 256 queries, and random sets
 func genBitmap(g *gen) {
 	all := make([]byte, 256)
@@ -433,8 +511,8 @@ func genBitmap(g *gen) {
 func init() {
 	generators["C18"] = []func(*gen){genAttrDecoders}
 	generators["C19"] = []func(*gen){genPrefixes, genMPSplitters}
-	generators["C16"] = []func(*gen){genUpdateBodies(false), genBitmap}
-	generators["C17"] = []func(*gen){genUpdateBodies(true), genUpdateBodies(false), genFromErr}
+	generators["C16"] = []func(*gen){genUpdateBodies(false), genBitmap, genUpdSeq}
+	generators["C17"] = []func(*gen){genUpdateBodies(true), genUpdateBodies(false), genFromErr, genUpdSeq}
 }
 
 // genOversize feeds every decoder byte slices above 65535 bytes and random garbage of all sizes.
